@@ -290,10 +290,66 @@ theorem readyOk_makeProxy (key : Nat) (explicit : Bool) (s : St) (h : ReadyOk s)
 theorem readyOk_completeCall (c : Call) (ok : Bool) (s : St) (h : ReadyOk s) :
     ReadyOk (completeCall .repaired c ok s) := by
   unfold completeCall
-  cases c.kind <;> cases ok <;> simp only [St.emit] <;>
-    first
-      | exact readyOk_log s _ h
-      | exact readyOk_makeProxy _ false _ (readyOk_log s _ h)
+  split
+  · exact h
+  · cases c.kind <;> cases ok <;> simp only [St.emit] <;>
+      first
+        | exact readyOk_log s _ h
+        | exact readyOk_makeProxy _ false _ (readyOk_log s _ h)
+
+/-! ### The caller cancels a Deferred: the entry stays, marked -/
+
+theorem markCancelled_serials (n : Nat) : ∀ l : List Call, (markCancelled n l).map (·.serial) = l.map (·.serial)
+  | [] => rfl
+  | c :: t => by
+    unfold markCancelled
+    split
+    · simp
+    · simp [markCancelled_serials n t]
+
+/-- Every entry of the marked table is an entry of the old one up to the mark. -/
+theorem mem_markCancelled {n : Nat} {c : Call} : ∀ {l : List Call}, c ∈ markCancelled n l →
+    ∃ c0 ∈ l, c.serial = c0.serial ∧ c.timed = c0.timed ∧ c.kind = c0.kind ∧ (c = c0 ∨ (c0.serial = n ∧ c.cancelled = true))
+  | [], h => by cases h
+  | d :: t, h => by
+    unfold markCancelled at h
+    split at h
+    · rename_i hd
+      rcases List.mem_cons.mp h with rfl | h
+      · exact ⟨d, List.mem_cons_self, rfl, rfl, rfl, Or.inr ⟨hd, rfl⟩⟩
+      · exact ⟨c, List.mem_cons_of_mem _ h, rfl, rfl, rfl, Or.inl rfl⟩
+    · rcases List.mem_cons.mp h with rfl | h
+      · exact ⟨c, List.mem_cons_self, rfl, rfl, rfl, Or.inl rfl⟩
+      · obtain ⟨c0, h0, h1⟩ := mem_markCancelled h
+        exact ⟨c0, List.mem_cons_of_mem _ h0, h1⟩
+
+/-- Every entry of the old table is still there, up to the mark. -/
+theorem markCancelled_keeps {n : Nat} {c0 : Call} : ∀ {l : List Call}, c0 ∈ l →
+    ∃ c ∈ markCancelled n l, c.serial = c0.serial ∧ c.timed = c0.timed
+  | [], h => by cases h
+  | d :: t, h => by
+    unfold markCancelled
+    split
+    · rcases List.mem_cons.mp h with rfl | h
+      · exact ⟨_, List.mem_cons_self, rfl, rfl⟩
+      · exact ⟨c0, List.mem_cons_of_mem _ h, rfl, rfl⟩
+    · rcases List.mem_cons.mp h with rfl | h
+      · exact ⟨c0, List.mem_cons_self, rfl, rfl⟩
+      · obtain ⟨c, hc, h1⟩ := markCancelled_keeps (n := n) h
+        exact ⟨c, List.mem_cons_of_mem _ hc, h1⟩
+
+theorem readyOk_markCancelled (n : Nat) (l : List Fx) (s : St) (h : ReadyOk s) :
+    ReadyOk { s with pending := markCancelled n s.pending, log := l } := by
+  obtain ⟨h1, h2, h3, h4, h5, h6, h7, h8, h9, h10⟩ := h
+  refine ⟨⟨?_, ?_⟩, ?_, h3, h4, h5, h6, h7, h8, h9, h10⟩
+  · simp only []; rw [markCancelled_serials]; exact h1.1
+  · intro c hc
+    obtain ⟨c0, h0, hs, _⟩ := mem_markCancelled hc
+    rw [hs]; exact h1.2 c0 h0
+  · intro t ht
+    obtain ⟨c0, h0, hs, htm⟩ := h2 t ht
+    obtain ⟨c, hc, hcs, hct⟩ := markCancelled_keeps (n := n) h0
+    exact ⟨c, hc, hcs.trans hs, hct.trans htm⟩
 
 theorem readyOk_modifyCbs (p : Nat) (g : List Cb → List Cb) (s : St) (n : Nat) (h : ReadyOk s) (hn : s.nextCb ≤ n)
     (hg : ∀ l : List Cb, (l.map (·.id)).Nodup → (∀ c ∈ l, c.id < s.nextCb) →
@@ -398,16 +454,23 @@ theorem runConnCbs_proxOk (cbs : List Cb) : ∀ s : St, ProxOk s →
 theorem failCall_proxOk (c : Call) (s : St) (h : ProxOk s) :
     ProxOk (failCall .repaired c s) ∧ RegMono s (failCall .repaired c s) := by
   unfold failCall
-  cases c.timed
-  · simp only [Bool.false_eq_true, if_false]
-    obtain ⟨a1, a2⟩ := react_proxOk (.errback c) (reactionOf c.kind) (s.emit (.callErr c.serial (errKindOf c.kind)))
-      (proxOk_emit s _ h)
-    exact ⟨a1, fun e he => a2 e he⟩
-  · simp only [if_true]
-    have h' : ProxOk ({ s with timers := s.timers.filter (· ≠ c.serial), log := s.log ++ [Fx.timerCancelled c.serial] }.emit
-        (Fx.callErr c.serial (errKindOf c.kind))) := proxOk_congr h rfl rfl rfl (Nat.le_refl _)
-    obtain ⟨a1, a2⟩ := react_proxOk (.errback c) (reactionOf c.kind) _ h'
-    exact ⟨a1, fun e he => a2 e he⟩
+  cases c.cancelled
+  · cases c.timed
+    · simp only [Bool.false_eq_true, if_false]
+      obtain ⟨a1, a2⟩ := react_proxOk (.errback c) (reactionOf c.kind) (s.emit (.callErr c.serial (errKindOf c.kind)))
+        (proxOk_emit s _ h)
+      exact ⟨a1, fun e he => a2 e he⟩
+    · simp only [if_true, Bool.false_eq_true, if_false]
+      have h' : ProxOk ({ s with timers := s.timers.filter (· ≠ c.serial), log := s.log ++ [Fx.timerCancelled c.serial] }.emit
+          (Fx.callErr c.serial (errKindOf c.kind))) := proxOk_congr h rfl rfl rfl (Nat.le_refl _)
+      obtain ⟨a1, a2⟩ := react_proxOk (.errback c) (reactionOf c.kind) _ h'
+      exact ⟨a1, fun e he => a2 e he⟩
+  · -- the errback is swallowed: only the timer is cancelled
+    cases c.timed
+    · simp only [Bool.false_eq_true, if_false, if_true]
+      exact ⟨h, RegMono.refl s⟩
+    · simp only [if_true]
+      exact ⟨proxOk_congr h rfl rfl rfl (Nat.le_refl _), fun e he => he⟩
 
 theorem failCalls_proxOk (calls : List Call) : ∀ s : St, ProxOk s →
     ProxOk (failCalls .repaired calls s) ∧ RegMono s (failCalls .repaired calls s) := by
